@@ -220,6 +220,8 @@ def discharge(ctx, f, an, site):
                             return all(lengthy_e(x) for x in (e2.a[0].a[1], e2.a[0].a[2]))
                         if e2.k == "field" and e2.a[1] == "payload_length" and header_source(e2.a[0])[0] is not None:
                             return True  # a successfully decoded header's payload fits in the buffer it was read from
+                        if e2.k == "call" and e2.a[0].name == "sum" and (e2.a[0].trait or "").endswith("Iterator") and "usize" in (e2.a[0].full or "") and any(x.k == "field" and x.a[1] == "content" for x in e2.walk()):
+                            return True  # a sum of in-memory lengths over the pairs of a record
                         return e2.k == "call" and e2.a[0].name in ("len", "length", "capacity", "size", "length_with_payload", "payload_length") and e2.a[0].krate in ("core", "alloc", "std", "bytes", "alloy_rlp", "enr")
                     if all(lengthy(o) for o in st.rv.ops):
                         return ("lib", "sum of in-memory buffer lengths / small constants cannot overflow usize")
